@@ -1,6 +1,5 @@
 (* Conversions between OCaml values and the extracted inductive types; hex coding.
    Trusted glue of the correspondence check. *)
-open Model
 
 let rec nat_of_int n = if n <= 0 then O else S (nat_of_int (n - 1))
 let int_of_nat n = let rec go acc = function O -> acc | S m -> go (acc + 1) m in go 0 n
